@@ -9,11 +9,14 @@ R3 a child's failure propagates: each indirect serializer call's result is teste
    json_object_to_json_string_length returns text and length from the same buffer only on a non-negative result
 R4 integer text by signedness: the int emitter formats with a signed conversion under the signed tag and an unsigned one under
    the unsigned tag
+R5 a finite double is rendered through a numeric conversion: every fixed-text rendering (NaN / Infinity / -Infinity) in the double
+   emitter is unreachable while the stored double is finite (exact class analysis of the branch conditions on the value)
 """
 from ..ir import load_program, strip_casts
 from ..cfg import cfg_of
 from ..flow import Paths, result_fates, dominating_conditions
 from .. import pe
+from .. import fclass
 from .c01 import RFC_ESC
 
 F_SPACED, F_PRETTY, F_NOZERO, F_TAB, F_NOSLASH, F_COLOR = 1, 2, 4, 8, 16, 32
@@ -29,6 +32,7 @@ def run(chk):
     r2(chk, prog, m)
     r3(chk, prog, m)
     r4(chk, prog, m)
+    r5(chk, prog, m)
     chk.undecided_clauses += [
         "exactness of the %.17g double text and the NOZERO trimming (value-level)",
         "parse(serialize(T)) == T and re-serialization identity (needs both executions)",
@@ -420,3 +424,79 @@ def r4(chk, prog, m):
                         "a %s conversion (%s) is used under the %s representation tag: values >= 2^63 print as negative numbers (or vice versa)"
                         % ("signed" if signed_fmt else "unsigned", fmt, "signed" if under_signed else "unsigned"))
     chk.floor(rid, n, 2, "integer formatting calls")
+
+
+# ---------------------------------------------------------------------------
+# R5 finite doubles never take a fixed-text rendering
+PRINTF_LIKE = {"snprintf": 2, "sprintf": 1, "sprintbuf": 1, "printbuf_memappend": 1, "printbuf_strappend": 1}
+NONFINITE_TEXT = {"NaN": fclass.NAN, "Infinity": fclass.PINF, "-Infinity": fclass.NINF}
+
+
+def r5(chk, prog, m):
+    rid = "C02.R5"
+    chk.rule(rid, "double emitter: a rendering whose text is fixed (no conversion of the value) is reached only when the stored double is "
+                  "not finite, and with the non-finite value the text names; decided by evaluating every branch condition on the value "
+                  "exactly, per class of doubles (NaN, the infinities, the signed zeros, each compared constant, the intervals between)")
+    n = 0
+    for f in m.functions.values():
+        if f.is_decl:
+            continue
+        P = Paths(f, prog)
+        loads = [i for i in f.instrs() if i.op == "load" and i.type == "double" and P.path(i.ops[0]).endswith("c_double")]
+        if not loads:
+            continue
+        fixed = []
+        for c in f.instrs():
+            if c.op != "call" or c.callee not in PRINTF_LIKE:
+                continue
+            k = PRINTF_LIKE[c.callee]
+            if k >= len(c.ops):
+                continue
+            a = c.ops[k]
+            while a.kind == "cexpr" and a.args:
+                a = a.args[0]
+            g = f.module.globals.get(a.v) if a.kind == "global" else None
+            if g is None or not g.bytes:
+                continue
+            txt = g.bytes.split(b"\0")[0].decode("latin-1")
+            if "%" in txt:
+                continue
+            fixed.append((c, txt))
+        if not fixed:
+            continue
+        vpaths = sorted({P.path(i.ops[0]) for i in loads})
+        if len(vpaths) != 1:
+            continue
+        vpath = vpaths[0]
+        stores = [i for i in f.instrs() if i.op == "store" and P.path(i.ops[1]) == vpath]
+        chk.touched(f)
+        state, cls, used = fclass.analyse(f, prog, vpath)
+        for c, txt in fixed:
+            # only renderings of the value itself: text that is a JSON-extension number word or is selected by a test on the value
+            st = state.get(c.block)
+            sig = "fixed text %r" % txt
+            if st is None:
+                chk.proven(rid, f.name, sig, c.locstr(), "unreachable")
+                n += 1
+                continue
+            allc = frozenset(nm for nm, _ in cls)
+            if st == allc and txt not in NONFINITE_TEXT:
+                continue          # not selected by the value: not a rendering of it (e.g. a separator)
+            n += 1
+            if stores:
+                chk.undecided(rid, f.name, sig, c.locstr(), "the double is written inside the emitter")
+                continue
+            fin = sorted(x for x in st if fclass.is_finite_class(x))
+            detail = {"value": vpath, "classes_reaching": sorted(st), "conditions_evaluated": used,
+                      "classes": [nm for nm, _ in cls]}
+            if fin:
+                rep = dict(cls)[fin[0]]
+                chk.refuted(rid, f.name, sig, c.locstr(),
+                            "the text %r is emitted for the finite double %r (class %s): the output is not a number and re-parses to a "
+                            "different value" % (txt, rep, fin[0]), detail)
+            elif txt in NONFINITE_TEXT and set(st) - {NONFINITE_TEXT[txt]}:
+                chk.refuted(rid, f.name, sig, c.locstr(),
+                            "the text %r is emitted for %s" % (txt, ", ".join(sorted(set(st) - {NONFINITE_TEXT[txt]}))), detail)
+            else:
+                chk.proven(rid, f.name, sig, c.locstr(), "reached only with %s" % ", ".join(sorted(st)), detail)
+    chk.floor(rid, n, 3, "fixed-text renderings in the double emitter")
